@@ -140,6 +140,39 @@ def c03_oracle(plan, recs):
     return None
 
 
+C03_PIPE_FIRST = ["RETR x.txt", "RETR a/y.txt", "LIST", "LIST a", "MLSD a", "STOR up.bin", "APPE x.txt", "MLST x.txt", "DELE x.txt", "MKD made", "RMD a", "CWD a", "RNFR x.txt"]
+C03_PIPE_NEXT = [["USER alice"], ["USER alice", "PWD"], ["USER alice", "PASS wrong"], ["USER nobody"], ["CWD a", "USER alice"]]
+
+
+def c03_pipe_plans(ctx):
+    """a command and a USER for ANOTHER (password-protected) account in one segment, on a backend whose calls suspend:
+    the command was sent under bob's completed login and must act on bob's tree, whatever the handlers' interleaving"""
+    plans = []
+    for first in C03_PIPE_FIRST:
+        for nxt in C03_PIPE_NEXT:
+            for delay in ((0.01,) if not ctx.thorough() else (0.01, 0.0, 0.2)):
+                plans.append([("pipe", [first] + nxt, delay)])
+    return plans
+
+
+def c03_pipe_oracle(plan, recs):
+    for r in recs:
+        if not r.get("pipe"):
+            continue
+        for name, p in r.get("pipe_calls", []):
+            for q in LW.paths_of((name, p)):
+                if pathlib.PurePosixPath(q).parts[:1] == ("ua",):
+                    return {"what": "%r sent in one segment under bob's login: backend %s(%s) lies in alice's tree, whose password was never presented (replies %r)" % (r["pipe"], name, q, r["replies"]),
+                            "signature": "C03:pipelined:served-under-a-login-without-password"}
+        if r.get("data") and (b"ALICE" in r["data"] or b"keys.pem" in r["data"]):
+            return {"what": "%r sent in one segment under bob's login delivered alice's data %r" % (r["pipe"], r["data"][:40]), "signature": "C03:pipelined:served-under-a-login-without-password"}
+        t0, t1 = parse_tree(r["tree0"]), parse_tree(r["tree1"])
+        for k in set(t0) | set(t1):
+            if t0.get(k) != t1.get(k) and k[:1] == ("ua",):
+                return {"what": "%r sent in one segment under bob's login changed alice's tree (%s)" % (r["pipe"], "/".join(k)), "signature": "C03:pipelined:served-under-a-login-without-password"}
+    return None
+
+
 # ------------------------------------------------------------------------------------------------
 # C04: the permission decision of a transfer is about the path its worker acts on
 # ------------------------------------------------------------------------------------------------
